@@ -24,6 +24,8 @@ def gen_spec(rng, profile="full", max_tasks=6):
             return gen_chain_theme(rng)
         if r < 0.50:
             return gen_contention_theme(rng)
+        if r < 0.62:
+            return gen_dense_dag_theme(rng)
     nT = rng.randint(1, max_tasks)
     share_names = rng.random() < 0.2
     dep_mix = rng.choice(["fs", "fs", "mixed", "mixed", "ss", "ff"])
@@ -155,6 +157,11 @@ def add_product(rng, spec, names, nW):
             w["fac_skills"] = fs
             if rng.random() < 0.4:
                 w["main_wp"] = rng.randrange(nWp)
+    for i, t in enumerate(tasks):
+        mine = [q for q in range(nWp) if i in wps[q]["targets"]]
+        if len(mine) > 1 and rng.random() < 0.4:
+            rng.shuffle(mine)
+            t["wps_order"] = mine
     spec["components"] = comps
     spec["workplaces"] = wps
 
@@ -221,6 +228,14 @@ def gen_facility_theme(rng):
             workers.append(w)
             nW += 1
         teams.append(dict(workers=workers, targets=[i for i in range(len(tasks)) if rng.random() < 0.85]))
+    for i, t in enumerate(tasks):
+        mine = [q for q in range(nWp) if i in wps[q]["targets"]]
+        if len(mine) > 1 and rng.random() < 0.5:
+            rng.shuffle(mine)
+            t["wps_order"] = mine
+    if rng.random() < 0.3:      # equal capacities and skills: ties between workplaces
+        for q in wps:
+            q["cap"] = 2.0
     return dict(tasks=tasks, teams=teams, components=comps, workplaces=wps)
 
 
@@ -250,6 +265,29 @@ def gen_chain_theme(rng):
             if rng.random() < 0.2:
                 w["absence"] = sorted(rng.sample(range(0, 6), rng.randint(1, 2)))
             workers.append(w)
+    return dict(tasks=tasks, teams=[dict(workers=workers, targets=list(range(nT)))], components=[], workplaces=[])
+
+
+def gen_dense_dag_theme(rng):
+    """dense dependency graphs (shortcut edges next to longer paths, several heads and tails, all four
+    link kinds but mostly FS) with few workers: PERT waves revisit tasks and priorities matter"""
+    nT = rng.randint(4, 8)
+    kinds = rng.choice([[0], [0], [0, 0, 0, 1, 2, 3]])
+    tasks = []
+    for i in range(nT):
+        t = dict(work=rng.choice([0.0, 0.5, 1.0, 2.0, 3.0, 4.0]), prog=rng.choice([0.0, 0.0, 0.0, 0.5]), name="T%d" % (i % 4), inputs=[])
+        if i > 0:
+            for j in rng.sample(range(i), min(i, rng.choice([0, 1, 2, 2, 3]))):
+                t["inputs"].append([j, rng.choice(kinds)])
+        tasks.append(t)
+    if rng.random() < 0.5:
+        perm = list(range(nT))
+        rng.shuffle(perm)
+        inv = {old: new for new, old in enumerate(perm)}
+        tasks = [dict(tasks[old], inputs=[[inv[j], d] for j, d in tasks[old]["inputs"]]) for old in perm]
+    names = sorted(set(t["name"] for t in tasks))
+    workers = [dict(skills={n: rng.choice([0.5, 1.0, 1.0, 2.0]) for n in names if rng.random() < 0.9}, cost=rng.choice(COSTS),
+                    solo=rng.random() < 0.4) for _ in range(rng.randint(1, 3))]
     return dict(tasks=tasks, teams=[dict(workers=workers, targets=list(range(nT)))], components=[], workplaces=[])
 
 
